@@ -121,7 +121,8 @@ PROPS['C11'] = Prop('C11', harness='c11', entries=['c11rt', 'm1c', 'm1c_h', 'm1c
                     trusted=M1_TRUSTED + ['real-time lane c11rt: wall-clock trace of writes and conclusions, judged by the Coq-proved timing monitor of C08'],
                     assumptions=M1_ASSUME, rule='real-time lane: server endpoints of both versions, a request outstanding when the session ends, the same id reconnects, a new request must get its own full timeout (2 runs per version, thorough 10); ' + M1_RULE,
                     design_ref='5 C11', confirm_slow=True, monitor_prefixes=['C11'], spec_entries=['c11rt'], search_n=3000, harness_timeout=1200,
-                    extra=scenario_extra(('C11-late-cleanup-of-ended-session-hits-new-session', 34, 'gated: the application disconnect handler of an ended session returns only after the same id has reconnected and been sent a CALL: nothing of the new session is touched'),
+                    extra=scenario_extra(('C11-restarted-server-loses-queues', 45, 'gated: server Stop and Start while the old message pump is still inside a cancel callback; a client of the restarted endpoint is served: request written once, reply accepted, next request written (F38)'),
+                                            ('C11-late-cleanup-of-ended-session-hits-new-session', 34, 'gated: the application disconnect handler of an ended session returns only after the same id has reconnected and been sent a CALL: nothing of the new session is touched'),
                                             ('C11-request-accepted-for-ended-session', 38, 'central system: a request sent from the disconnect handler to the client whose session has just ended is refused; the next session of that id is not disturbed'),
                                             ('C11-idle-session-leaves-a-mark', 36, 'a client connects and disconnects without traffic, reconnects, gets two CALLs: the first times out normally and the second is written'),
                                             ('C11-one-callback-stalls-all-stations', 35, 'central system and CSMS: the blocked callback of one station cancelled request does not keep another station from being served'),
@@ -131,7 +132,9 @@ PROPS['C11'] = Prop('C11', harness='c11', entries=['c11rt', 'm1c', 'm1c_h', 'm1c
                                          ('C11-timeout-of-one-client-dispatches-for-another', 16, 'client C times out right after client A completed an exchange; the application\'s cancel handler sends a request to A: it goes to A once, nothing is written to C, nothing crashes (F1)'),
                                          ('C11-stale-pending-after-session-end', 7, 'bare ocppj.Server without an application disconnect handler: a session ends with a request outstanding, the same id reconnects, the reply to the new session\'s first request must be accepted')))
 PROPS['C16'] = m1prop('C16', 'theories/Props/C16.v', ['C16', 'panic'], spec_entries=['m1c_fresh'],
-                      extra=scenario_extra(('C16-ws-client-restart-not-fresh', 41, 'ws client, real sockets: four sessions on one client object alternating Start and StartWithRetries, each connects, echoes a message and stops'),
+                      extra=scenario_extra(('C16-restart-while-old-pump-busy', 44, 'gated: client Stop and Start while the old message pump is still inside a cancel callback; the new session request is written once and gets its own timeout (F38)'),
+                                            ('C16-server-restart-while-old-pump-busy', 45, 'gated: the same on a server endpoint: the restarted endpoint serves its clients (F38)'),
+                                            ('C16-ws-client-restart-not-fresh', 41, 'ws client, real sockets: four sessions on one client object alternating Start and StartWithRetries, each connects, echoes a message and stops'),
                                             ('C16-restart-while-callback-busy', 30, 'gated: Stop, Start and a new request while the callback routine of the first session is still inside an application callback; the new request is concluded at its own callback (F35)'),
                                             ('C16-callback-after-stop', 31, 'gated: Stop while the callback routine is busy and a further conclusion waits for it, 16 tries; no callback fires once Stop has returned (F36)'),
                                             ('C16-send-racing-stop', 5, 'real sockets: 4 goroutines send on a charge point while Stop is called, 40 rounds; nothing may crash or block (F10)'),
@@ -171,7 +174,8 @@ PROPS['C08'] = Prop('C08', harness='c08', entries=['c08rt', 'm1c', 'm1c_h', 'm1c
                     assumptions=M1_ASSUME + ['real-time lane: a timeout earlier than 6 ms before the deadline counts as early (measurement tolerance); lateness is only checked as "concluded within the observation window (deadline + >= 60 ms)"'],
                     rule='real-time lane: 5 client + 5 server scenarios x 2 protocol versions on the real timers (timeout 160 ms, random jitter 0-24 ms): plain timeout + next request, reply late in the window, disconnect / reconnect across the deadline, answered-then-idle, staggered deadlines of two clients, session end + reconnect of the same id; the measured timed trace is the input of the Coq monitor. Virtual lane: ' + M1_RULE,
                     design_ref='5 C08', confirm_slow=True, monitor_prefixes=['C08'], spec_entries=['c08rt'], search_n=1500, harness_timeout=1500,
-                    extra=scenario_extra(('C08-never-times-out-after-idle-session', 36, 'a client connects and disconnects without traffic, reconnects, gets two CALLs and leaves the first unanswered: it is cancelled by its timeout, once and not early, and the second is written'),
+                    extra=scenario_extra(('C08-timeout-lost-after-restart', 44, 'gated: client Stop and Start while the old message pump is still inside a cancel callback; the request of the new session times out after its own timeout, once (F38)'),
+                                            ('C08-never-times-out-after-idle-session', 36, 'a client connects and disconnects without traffic, reconnects, gets two CALLs and leaves the first unanswered: it is cancelled by its timeout, once and not early, and the second is written'),
                                             ('C08-next-request-cancelled-by-stale-timeout', 23, 'gated: the reply to a request arrives when its timeout has just expired and the pump is busy, 8 tries; the next request gets its own full timeout (F8)', ),
                                          ('C08-timeout-lost-when-another-session-ends', 27, 'requests outstanding for clients X and Y; X disconnects: Y\'s request still times out at its own deadline, exactly once'),
                                          ('C08-request-after-timeout-loses-its-timeout', 26, 'a request times out and the cancel handler sends the next one to the same client, 6 tries; it is written once and times out on its own (F19)'), quick=2, thorough=12))
@@ -262,7 +266,8 @@ PROPS['C13'] = Prop('C13', harness='c13', entries=['c13', 'c13b'], props_file='t
                                  'only handshakes that pass auth / check / origin / negotiation are events of this model (C14 covers the others)'],
                     rule='real ws server on loopback: seeded random sequences (4-17 events over 3 ids) of connect / duplicate connect / client close frame / abrupt TCP reset (SO_LINGER 0) / StopConnection / server Write / server Stop, compared with the registry model after every event (callbacks, refusals, write results, GetChannel of every id); plus concurrent connect bursts on 2 ids judged by a monitor (one winner per id, callback counts, registry empty afterwards); quick 27 sequences + 6 bursts, thorough 400 + 120',
                     design_ref='5 C13', monitor_prefixes=['C13'], confirm_slow=True, harness_timeout=3000, spec_entries=['c13'], search_n=400,
-                    extra=scenario_extra(('C13-stale-entry-replaced', 39, 'real sockets: a duplicate connection for id x is checked while the removal of the dropped first connection of x is queued behind it (the table is held by a Write blocked on a peer that does not read): at quiescence reported ids = live connections, at most one per id, callbacks pair up'),
+                    extra=scenario_extra(('C13-disconnected-before-announced', 43, 'real sockets: 24 peers x 200 connections that are reset right after the handshake: for every accepted connection new-client comes before disconnected, both exactly once (F21)'),
+                                            ('C13-stale-entry-replaced', 39, 'real sockets: a duplicate connection for id x is checked while the removal of the dropped first connection of x is queued behind it (the table is held by a Write blocked on a peer that does not read): at quiescence reported ids = live connections, at most one per id, callbacks pair up'),
                                             ('C13-disconnected-more-than-once', 40, 'real sockets: six concurrent StopConnection calls on one id, 12 rounds: each connection announced once, reported disconnected exactly once, not reported afterwards'),
                                             ('C13-second-live-connection-after-stopconnection', 15, 'real sockets: StopConnection on a connection whose write routine is busy (64 MiB to a peer that does not read); until its disconnected callback a second connection with the same id is refused with 1008, afterwards a new one works', ), quick=2, thorough=12))
 MANIFEST_TEXT['C13'] = dict(
